@@ -29,6 +29,11 @@ fn subs(full: bool) -> Vec<(&'static str, Query, bool)> {
         ("sum", sel1(ag(AggF::Sum, Some(qcol("i", "c"))), table("i"), Some(corr())), true),
         ("max", sel1(ag(AggF::Max, Some(qcol("i", "c"))), table("i"), Some(corr())), true),
     ];
+    // the subquery has a GROUP BY of its own (the decorrelation must add the correlated columns to every grouping set)
+    let grouped = |item: E, key: E, having: Option<E>| Query::of(Select { distinct: false, items: vec![Item::Expr(item, None)], from: Some(table("i")), where_: Some(corr()), group_by: GroupBy::Plain(vec![key]), having });
+    v.push(("grouped-sum", grouped(ag(AggF::Sum, Some(qcol("i", "c"))), qcol("i", "c"), None), false));
+    v.push(("grouped-key", grouped(qcol("i", "c"), qcol("i", "c"), None), false));
+    v.push(("grouped-count-having", grouped(ag(AggF::CountStar, None), qcol("i", "a"), Some(bin(Op::Gt, ag(AggF::CountStar, None), E::Int(1)))), true));
     let mut lim = sel1(qcol("i", "c"), table("i"), Some(corr()));
     lim.order_by = vec![OrderKey { ordinal: 1, desc: false, nulls_first: None, by_name: false }];
     lim.limit = Some(1);
